@@ -107,6 +107,9 @@ def opSAR (shift0 value0 : Int) : Int :=
 /-- bigUint64: `v.Uint64(), v.BitLen() > 64` -/
 def bigUint64 (v : Int) : UInt64 × Bool := (UInt64.ofNat (uint64 v), decide (bitLen v > 64))
 
+/-- `if x, overflow = f(..); overflow { return 0, errGasUintOverflow }` -/
+def chk (r : UInt64 × Bool) : Option UInt64 := if r.2 then none else some r.1
+
 /-- toWordSize -/
 def toWordSize (size : UInt64) : UInt64 :=
   if size > maxU64 - 31 then maxU64 / 32 + 1 else (size + 31) / 32
@@ -117,11 +120,7 @@ def calcMemSize (off l : Int) : Int := if l = 0 then 0 else off + l
 /-- the memory-size prologue of Interpreter.Run: bigUint64 overflow → error; SafeMul(toWordSize(memSize), 32) overflow → error.
     Returns the requested size in bytes, rounded up to words. -/
 def memorySizeOf (memSize : Int) : Option UInt64 :=
-  let (m, ov) := bigUint64 memSize
-  if ov then none
-  else
-    let (r, ov2) := safeMul (toWordSize m) 32
-    if ov2 then none else some r
+  (chk (bigUint64 memSize)).bind fun m => chk (safeMul (toWordSize m) 32)
 
 structure Mem where
   len : UInt64          -- uint64(mem.Len())
@@ -156,81 +155,43 @@ def gasSlowStep : UInt64 := 10
 
 /-- gasMLoad / gasMStore / gasMStore8: memory + GasFastestStep -/
 def gasMemVeryLow (mem : Mem) (memorySize : UInt64) : Option UInt64 :=
-  match memoryGasCost mem memorySize with
-  | none => none
-  | some (gas, _) =>
-    let (g, ov) := safeAdd gas gasFastestStep
-    if ov then none else some g
+  (memoryGasCost mem memorySize).bind fun r =>
+  chk (safeAdd r.1 gasFastestStep)
 
 /-- the shared body of gasCallDataCopy / gasCodeCopy / gasReturnDataCopy (base = GasFastestStep) and gasExtCodeCopy
     (base = gt.ExtcodeCopy); `len` is the length operand (stack.Back(2) resp. Back(3)). -/
 def gasCopy (base : UInt64) (mem : Mem) (memorySize : UInt64) (len : Int) : Option UInt64 :=
-  match memoryGasCost mem memorySize with
-  | none => none
-  | some (gas, _) =>
-    let (gas, ov) := safeAdd gas base
-    if ov then none
-    else
-      let (words, ov) := bigUint64 len
-      if ov then none
-      else
-        let (words, ov) := safeMul (toWordSize words) 3 -- params.CopyGas
-        if ov then none
-        else
-          let (gas, ov) := safeAdd gas words
-          if ov then none else some gas
+  (memoryGasCost mem memorySize).bind fun r =>
+  (chk (safeAdd r.1 base)).bind fun gas =>
+  (chk (bigUint64 len)).bind fun words =>
+  (chk (safeMul (toWordSize words) 3)).bind fun words => -- params.CopyGas
+  chk (safeAdd gas words)
 
 /-- gasSha3: memory + Sha3Gas + Sha3WordGas * words(size) -/
 def gasSha3 (mem : Mem) (memorySize : UInt64) (size : Int) : Option UInt64 :=
-  match memoryGasCost mem memorySize with
-  | none => none
-  | some (gas, _) =>
-    let (gas, ov) := safeAdd gas 30 -- params.Sha3Gas
-    if ov then none
-    else
-      let (wordGas, ov) := bigUint64 size
-      if ov then none
-      else
-        let (wordGas, ov) := safeMul (toWordSize wordGas) 6 -- params.Sha3WordGas
-        if ov then none
-        else
-          let (gas, ov) := safeAdd gas wordGas
-          if ov then none else some gas
+  (memoryGasCost mem memorySize).bind fun r =>
+  (chk (safeAdd r.1 30)).bind fun gas => -- params.Sha3Gas
+  (chk (bigUint64 size)).bind fun wordGas =>
+  (chk (safeMul (toWordSize wordGas) 6)).bind fun wordGas => -- params.Sha3WordGas
+  chk (safeAdd gas wordGas)
 
 /-- gasExp: `expByteLen := (exponent.BitLen()+7)/8 ; gas = expByteLen * gt.ExpByte ; SafeAdd(gas, GasSlowStep)` -/
 def gasExp (expByte : UInt64) (exponent : Int) : Option UInt64 :=
-  let expByteLen := UInt64.ofNat ((bitLen exponent + 7) / 8)
-  let gas := expByteLen * expByte
-  let (gas, ov) := safeAdd gas gasSlowStep
-  if ov then none else some gas
+  chk (safeAdd (UInt64.ofNat ((bitLen exponent + 7) / 8) * expByte) gasSlowStep)
 
 /-- makeGasLog(n): size operand is stack.Back(1). -/
 def gasLog (n : UInt64) (mem : Mem) (memorySize : UInt64) (size : Int) : Option UInt64 :=
-  let (requestedSize, ov) := bigUint64 size
-  if ov then none
-  else
-    match memoryGasCost mem memorySize with
-    | none => none
-    | some (gas, _) =>
-      let (gas, ov) := safeAdd gas 375 -- params.LogGas
-      if ov then none
-      else
-        let (gas, ov) := safeAdd gas (n * 375) -- params.LogTopicGas
-        if ov then none
-        else
-          let (memorySizeGas, ov) := safeMul requestedSize 8 -- params.LogDataGas
-          if ov then none
-          else
-            let (gas, ov) := safeAdd gas memorySizeGas
-            if ov then none else some gas
+  (chk (bigUint64 size)).bind fun requestedSize =>
+  (memoryGasCost mem memorySize).bind fun r =>
+  (chk (safeAdd r.1 375)).bind fun gas => -- params.LogGas
+  (chk (safeAdd gas (n * 375))).bind fun gas => -- n * params.LogTopicGas
+  (chk (safeMul requestedSize 8)).bind fun memorySizeGas => -- params.LogDataGas
+  chk (safeAdd gas memorySizeGas)
 
 /-- gasCreate: memory + CreateGas -/
 def gasCreate (mem : Mem) (memorySize : UInt64) : Option UInt64 :=
-  match memoryGasCost mem memorySize with
-  | none => none
-  | some (gas, _) =>
-    let (gas, ov) := safeAdd gas 32000
-    if ov then none else some gas
+  (memoryGasCost mem memorySize).bind fun r =>
+  chk (safeAdd r.1 32000)
 
 /-- gasReturn / gasRevert: memory only -/
 def gasReturn (mem : Mem) (memorySize : UInt64) : Option UInt64 :=
@@ -278,10 +239,9 @@ def bitmapLoop (code : Array UInt8) : Nat → Nat → Nat → Nat
       let op := code[pc]
       if op ≥ 0x60 ∧ op ≤ 0x7f then
         let numbits := (op - 0x60).toNat + 1
-        let pc := pc + 1
-        let (numbits, pc, bits) := loop8 4 numbits pc bits
-        let (pc, bits) := loop1 8 numbits pc bits
-        bitmapLoop code f pc bits
+        let r8 := loop8 4 numbits (pc + 1) bits
+        let r1 := loop1 8 r8.1 r8.2.1 r8.2.2
+        bitmapLoop code f r1.1 r1.2
       else bitmapLoop code f (pc + 1) bits
     else bits
 
